@@ -53,8 +53,9 @@ type env struct {
 	rep     *lib.Report
 	chans   []string       // local channel ids of model channels 0 and 1: channel-11, channel-1
 	chanNum []int
-	alias   [2]tok.Token   // model token ids 0,1 ; voucher alias of channel t
-	vAlias  [2]string      // voucher denoms
+	remote  []int          // channel number of each channel's REMOTE end (always different from the local one)
+	alias   [3]tok.Token   // model token ids 0,1,2 ; voucher alias of channel t
+	vAlias  [3]string      // voucher denoms
 	own     [2]tok.Token   // model token ids 10,11 ; Base = the voucher denom of channel t
 	users   []lib.Key
 	relayer sdk.AccAddress
@@ -67,7 +68,7 @@ type env struct {
 
 // ---- operations (JSON = replay format) ----
 type opT struct {
-	Kind   string `json:"op"` // sendevm|sendplain|recv|ack|timeout|ackraw|timeoutraw|toggle
+	Kind   string `json:"op"` // sendevm|sendplain|recv|ack|timeout|ackraw|timeoutraw|toggle|exportimport
 	Chan   int    `json:"chan"`
 	User   int    `json:"user"`
 	Denom  string `json:"denom"` // fx|alias0|alias1|own10|own11|unreg
@@ -94,6 +95,7 @@ type sentPk struct {
 	evm    bool
 	reconv int // monitor: ERC-20 re-conversions seen for this (channel, sequence)
 	done   bool
+	lost   bool // its tracking record existed before a genesis export/import and did not exist after it
 }
 
 func main() {
@@ -124,6 +126,12 @@ func main() {
 		items = append(items, e.history(e.gen(i%2 == 0)))
 	}
 	e.observations()
+	// lifecycle histories (genesis export -> new app from the exported state) change the chain itself: they run last
+	for _, h := range e.lifecycle() {
+		if it := e.history(h); it != "" {
+			items = append(items, it)
+		}
+	}
 	lib.WriteCases("Cases_C19.v", []string{"model.M_Cache", "model.M_Ibc", "model.M_IbcCorr"}, "hist", items, "hist_mismatch")
 	e.rep.Write()
 }
@@ -136,15 +144,24 @@ func (e *env) setup(seed int64) {
 	// two channels whose ids are decimal-prefix related, with send sequences chosen so that the k-th packet of one and
 	// the k-th packet of the other read the same when channel id and sequence are written next to each other
 	// (channel-11 / k  vs  channel-1 / 1k): a relation key that is not injective shows up
+	// every channel's remote end carries an id DIFFERENT from the local one, and local / remote ids come from overlapping sets:
+	//   model channel 0 = channel-11 -> remote channel-7      model channel 1 = channel-1 -> remote channel-8
+	//   model channel 2 = channel-7  -> remote channel-9      (local channel-7 is named like channel-11's remote end)
+	// channels 0 and 2 both start at sequence 1, so equal sequences are in flight on "A" and on the channel named like A's remote end
 	c.App.IBCKeeper.ChannelKeeper.SetNextChannelSequence(ctx, 11)
-	_, ch0 := tok.Channel(c, ctx, 1)
+	_, ch0 := tok.ChannelTo(c, ctx, 1, "channel-7")
 	c.App.IBCKeeper.ChannelKeeper.SetNextChannelSequence(ctx, 1)
-	_, ch1 := tok.Channel(c, ctx, 11)
-	if ch0 != "channel-11" || ch1 != "channel-1" {
-		panic("unexpected channel ids " + ch0 + " " + ch1)
+	_, ch1 := tok.ChannelTo(c, ctx, 11, "channel-8")
+	c.App.IBCKeeper.ChannelKeeper.SetNextChannelSequence(ctx, 7)
+	_, ch2 := tok.ChannelTo(c, ctx, 1, "channel-9")
+	if ch0 != "channel-11" || ch1 != "channel-1" || ch2 != "channel-7" {
+		panic("unexpected channel ids " + ch0 + " " + ch1 + " " + ch2)
 	}
-	e.chans = []string{ch0, ch1}
-	e.chanNum = []int{11, 1}
+	e.chans = []string{ch0, ch1, ch2}
+	e.chanNum = []int{11, 1, 7}
+	e.remote = []int{7, 8, 9}
+	e.vAlias[2] = tok.VoucherDenom(c, ctx, port, ch2, "ua2")
+	e.alias[2] = tok.AddToken(c, ctx, "eth", 2, true, e.vAlias[2])
 	for t := 0; t < 2; t++ {
 		e.vAlias[t] = tok.VoucherDenom(c, ctx, port, e.chans[t], fmt.Sprintf("ua%d", t))
 		e.alias[t] = tok.AddToken(c, ctx, "eth", t, true, e.vAlias[t])
@@ -160,27 +177,30 @@ func (e *env) setup(seed int64) {
 		e.local[k.Hex()] = fmt.Sprintf("user %d", u)
 		c.EnsureAccount(ctx, k.Acc())
 		c.Mint(k.Acc(), sdk.NewCoin(fxtypes.DefaultDenom, sdkmath.NewInt(1_000_000)))
-		for t := 0; t < 2; t++ {
-			c.Mint(k.Acc(), sdk.NewCoin(e.alias[t].Base, sdkmath.NewInt(5000)), sdk.NewCoin(e.own[t].Base, sdkmath.NewInt(1000)))
+		for t := 0; t < 3; t++ {
+			if t < 2 {
+				c.Mint(k.Acc(), sdk.NewCoin(e.own[t].Base, sdkmath.NewInt(1000)))
+			}
+			c.Mint(k.Acc(), sdk.NewCoin(e.alias[t].Base, sdkmath.NewInt(5000)))
 			// the bridge module holds the bridge tokens behind the base coins
 			lib.Must(c.App.BankKeeper.MintCoins(ctx, "eth", sdk.NewCoins(sdk.NewCoin(e.alias[t].BridgeDenom, sdkmath.NewInt(5000)))))
 			_, err := c.App.Erc20Keeper.ConvertCoin(ctx, &erc20types.MsgConvertCoin{Coin: sdk.NewCoin(e.alias[t].Base, sdkmath.NewInt(3000)), Receiver: k.Hex().Hex(), Sender: k.Acc().String()})
 			lib.Must(err)
 		}
 	}
-	for t := 0; t < 2; t++ { // FX that left over this channel earlier sits in escrow and can come back
+	for t := 0; t < 3; t++ { // FX that left over this channel earlier sits in escrow and can come back
 		fx := sdk.NewCoin(fxtypes.DefaultDenom, sdkmath.NewInt(700))
 		c.Mint(transfertypes.GetEscrowAddress(port, e.chans[t]), fx)
 	}
-	c.App.IBCTransferKeeper.SetTotalEscrowForDenom(ctx, sdk.NewCoin(fxtypes.DefaultDenom, sdkmath.NewInt(1400)))
-	for t := 0; t < 2; t++ { // base coins of the bridged tokens that left earlier by plain ICS-20 transfers
-		for ch := 0; ch < 2; ch++ {
+	c.App.IBCTransferKeeper.SetTotalEscrowForDenom(ctx, sdk.NewCoin(fxtypes.DefaultDenom, sdkmath.NewInt(2100)))
+	for t := 0; t < 3; t++ { // base coins of the bridged tokens that left earlier by plain ICS-20 transfers
+		for ch := 0; ch < 3; ch++ {
 			c.Mint(transfertypes.GetEscrowAddress(port, e.chans[ch]), sdk.NewCoin(e.alias[t].Base, sdkmath.NewInt(300)))
 		}
-		lib.Must(c.App.BankKeeper.MintCoins(ctx, "eth", sdk.NewCoins(sdk.NewCoin(e.alias[t].BridgeDenom, sdkmath.NewInt(600)))))
-		c.App.IBCTransferKeeper.SetTotalEscrowForDenom(ctx, sdk.NewCoin(e.alias[t].Base, sdkmath.NewInt(600)))
+		lib.Must(c.App.BankKeeper.MintCoins(ctx, "eth", sdk.NewCoins(sdk.NewCoin(e.alias[t].BridgeDenom, sdkmath.NewInt(900)))))
+		c.App.IBCTransferKeeper.SetTotalEscrowForDenom(ctx, sdk.NewCoin(e.alias[t].Base, sdkmath.NewInt(900)))
 	}
-	for t := 0; t < 2; t++ { // voucher pool of the transfer module
+	for t := 0; t < 3; t++ { // voucher pool of the transfer module
 		lib.Must(c.App.BankKeeper.MintCoins(ctx, transfertypes.ModuleName, sdk.NewCoins(sdk.NewCoin(e.vAlias[t], sdkmath.NewInt(4000)))))
 	}
 	e.cCaller = common.BytesToAddress([]byte{0xc0, 0xde, 0x19, 1})
@@ -233,6 +253,9 @@ func (e *env) corpusFiles() [][]opT {
 		}
 	}
 	files, _ := filepath.Glob(filepath.Join(dir, "C19", "*.json"))
+	if filepath.Base(dir) == "C19" { // bin/check hands over corpus/<ID> itself
+		files, _ = filepath.Glob(filepath.Join(dir, "*.json"))
+	}
 	sort.Strings(files)
 	var out [][]opT
 	for _, f := range files {
@@ -249,6 +272,17 @@ func (e *env) corpusFiles() [][]opT {
 
 func (e *env) corpus() [][]opT {
 	return append(e.corpusFiles(), [][]opT{
+		// the two ends of a channel carry different ids (channel-11 <-> channel-7 there), and local channel-7 is named like the
+		// remote end of channel-11. Equal sequences (1) are in flight on both: an EVM-started transfer on channel-7 and a plain
+		// bank transfer on channel-11. The plain one times out first: it must come back as bank coins and must not touch the
+		// record of (channel-7, 1); the EVM one then comes back as ERC-20 and its record goes. (Record looked up under the
+		// packet's SOURCE channel — the local one —, never under the destination channel.)
+		{{Kind: "sendevm", Chan: 2, User: 0, Denom: "alias2", Amt: 80}, {Kind: "sendplain", Chan: 0, User: 1, Denom: "alias0", Amt: 45},
+			{Kind: "timeout", Chan: 0, Seq: 1}, {Kind: "timeout", Chan: 2, Seq: 1}, {Kind: "timeoutraw", Chan: 2, Seq: 1}},
+		{{Kind: "sendevm", Chan: 2, User: 2, Denom: "alias2", Amt: 33}, {Kind: "sendevm", Chan: 0, User: 2, Denom: "alias0", Amt: 21},
+			{Kind: "sendplain", Chan: 2, User: 0, Denom: "base0", Amt: 11}, {Kind: "sendplain", Chan: 0, User: 0, Denom: "fx", Amt: 19},
+			{Kind: "ack", Chan: 0, Seq: 2, OK: false}, {Kind: "ack", Chan: 0, Seq: 1, OK: false}, {Kind: "ack", Chan: 2, Seq: 2, OK: false, AckKind: "errempty"},
+			{Kind: "ack", Chan: 2, Seq: 1, OK: true}, {Kind: "ackraw", Chan: 2, Seq: 1, OK: false}},
 		// an EVM-started transfer in flight on channel-11 (seq 1) and a plain one on channel-1 (seq 11): "channel-11"+"1" vs
 		// "channel-1"+"11"; the plain one times out first, then the EVM one — each must be refunded in its own form
 		{{Kind: "sendevm", Chan: 0, User: 0, Denom: "alias0", Amt: 90}, {Kind: "sendplain", Chan: 1, User: 1, Denom: "alias1", Amt: 40},
@@ -292,7 +326,7 @@ func (e *env) corpus() [][]opT {
 			{Kind: "recv", Chan: 0, Src: 7, Sender: 0, RawDenom: "baseback0", Denom: "base0", Amt: 5, Receiver: "blockedhex", User: 0, Memo: "text"},
 			{Kind: "recv", Chan: 0, Src: 7, Sender: 0, RawDenom: "uo0", Denom: "own10", Amt: 5, Receiver: "hex", User: 1, Memo: "callvalue"},
 			{Kind: "recv", Chan: 0, Src: 7, Sender: 0, RawDenom: "fxback", Denom: "fx", Amt: 5, Receiver: "hex", User: 1, Memo: "callvalue"},
-			{Kind: "recv", Chan: 1, Src: 7, Sender: 0, RawDenom: "uo1", Denom: "own11", Amt: 5, Receiver: "hex", User: 1, Memo: "callvalue"},
+			{Kind: "recv", Chan: 0, Src: 7, Sender: 0, RawDenom: "baseback0", Denom: "base0", Amt: 5, Receiver: "hex", User: 1, Memo: "callvalue"},
 			{Kind: "recv", Chan: 0, Src: 7, Sender: 0, RawDenom: "uo0", Denom: "own10", Amt: 5, Receiver: "hex", User: 1, Memo: "callvalue"},
 			{Kind: "recv", Chan: 1, Src: 8, Sender: 1, RawDenom: "uo1", Denom: "own11", Amt: 5, Receiver: "hex", User: 1, Memo: "callvalue"},
 			{Kind: "sendevm", Chan: 0, User: 2, Denom: "alias0", Amt: 31}, {Kind: "sendplain", Chan: 0, User: 2, Denom: "base0", Amt: 12},
@@ -329,11 +363,25 @@ func (e *env) corpus() [][]opT {
 	}...)
 }
 
+// lifecycle: transfers in flight across a genesis export / import (real ExportAppStateAndValidators -> InitChain of a new app)
+func (e *env) lifecycle() [][]opT {
+	return [][]opT{
+		{{Kind: "sendevm", Chan: 0, User: 0, Denom: "alias0", Amt: 60}, {Kind: "sendplain", Chan: 0, User: 1, Denom: "alias0", Amt: 25},
+			{Kind: "sendevm", Chan: 2, User: 2, Denom: "alias2", Amt: 40}, {Kind: "sendevm", Chan: 1, User: 1, Denom: "fx", Amt: 30},
+			{Kind: "recv", Chan: 0, Sender: 0, RawDenom: "uo0", Denom: "own10", Amt: 7, Receiver: "hex", User: 2, Memo: "call"},
+			{Kind: "exportimport"},
+			{Kind: "timeout", Chan: 0, Seq: 1}, {Kind: "ack", Chan: 0, Seq: 2, OK: false}, {Kind: "ack", Chan: 2, Seq: 1, OK: false},
+			{Kind: "ack", Chan: 1, Seq: 11, OK: false}, {Kind: "timeoutraw", Chan: 0, Seq: 1},
+			{Kind: "recv", Chan: 0, Sender: 0, RawDenom: "uo0", Denom: "own10", Amt: 9, Receiver: "hex", User: 2, Memo: "call"},
+			{Kind: "sendevm", Chan: 1, User: 1, Denom: "alias1", Amt: 15}, {Kind: "timeout", Chan: 1, Seq: 12}},
+	}
+}
+
 func (e *env) gen(avoidKnown bool) []opT {
 	r := e.r
 	n := 12 + r.Intn(19)
 	var ops []opT
-	next := []uint64{1, 11}
+	next := []uint64{1, 11, 1}
 	type fl struct {
 		ch  int
 		seq uint64
@@ -344,18 +392,24 @@ func (e *env) gen(avoidKnown bool) []opT {
 	for i := 0; i < n; i++ {
 		switch x := r.Intn(100); {
 		case x < 22:
-			ch := r.Intn(2)
+			ch := r.Intn(3)
 			o := opT{Kind: "sendevm", Chan: ch, User: r.Intn(nUsers), Denom: fmt.Sprintf("alias%d", ch), Amt: int64(1 + r.Intn(400))}
 			switch r.Intn(10) {
 			case 0:
 				o.Denom = "fx"
 			case 1:
-				o.Denom = fmt.Sprintf("own1%d", ch)
+				if ch < 2 {
+					o.Denom = fmt.Sprintf("own1%d", ch)
+				} else {
+					o.Denom = "fx"
+				}
 			case 2:
 				// no voucher alias for this channel. Only from channel-11: BaseDenomToBridgeDenom matches the alias by
 				// strings.HasPrefix(trace path, "transfer/channel-N"), so over channel-1 the channel-11 voucher would be taken
 				if ch == 0 {
 					o.Denom = "alias1"
+				} else if ch == 2 {
+					o.Denom = "alias0"
 				}
 			case 3:
 				o.Amt = 3500 // more than the user holds
@@ -368,25 +422,31 @@ func (e *env) gen(avoidKnown bool) []opT {
 				inflight, all = append(inflight, f), append(all, f)
 			}
 		case x < 32:
-			ch := r.Intn(2)
-			d := []string{"fx", fmt.Sprintf("alias%d", ch), fmt.Sprintf("own1%d", ch), "base0", "base1"}[r.Intn(5)]
+			ch := r.Intn(3)
+			d := []string{"fx", fmt.Sprintf("alias%d", ch), fmt.Sprintf("own1%d", ch), "base0", "base1", "base2"}[r.Intn(6)]
+			if d == "own12" { // no own-voucher pair coin on the third channel
+				d = "alias2"
+			}
 			ops = append(ops, opT{Kind: "sendplain", Chan: ch, User: r.Intn(nUsers), Denom: d, Amt: int64(1 + r.Intn(150))})
 			f := fl{ch, next[ch], false}
 			next[ch]++
 			inflight, all = append(inflight, f), append(all, f)
 		case x < 62:
-			ch := r.Intn(2)
-			o := opT{Kind: "recv", Chan: ch, Src: 7 + r.Intn(2), Sender: r.Intn(3), User: r.Intn(nUsers), Amt: int64(1 + r.Intn(300))}
+			ch := r.Intn(3)
+			o := opT{Kind: "recv", Chan: ch, Src: e.remote[ch], Sender: r.Intn(3), User: r.Intn(nUsers), Amt: int64(1 + r.Intn(300))}
 			switch r.Intn(10) {
 			case 8, 9:
-				t := r.Intn(2)
+				t := r.Intn(3)
 				o.RawDenom, o.Denom = fmt.Sprintf("baseback%d", t), fmt.Sprintf("base%d", t)
 			case 0, 1, 2:
 				o.RawDenom, o.Denom = fmt.Sprintf("uo%d", ch), fmt.Sprintf("own1%d", ch)
+				if ch == 2 {
+					o.RawDenom, o.Denom = "fxback", "fx"
+				}
 			case 3:
 				o.RawDenom, o.Denom = fmt.Sprintf("ua%d", ch), fmt.Sprintf("alias%d", ch)
 			case 4:
-				o.RawDenom, o.Denom = fmt.Sprintf("uo%d", 1-ch), "unreg" // the other channel's denom: a different voucher here
+				o.RawDenom, o.Denom = fmt.Sprintf("uo%d", (ch+1)%2), "unreg" // another channel's denom: a different voucher here
 			case 5:
 				// unregistered foreign coins, among them a counterparty coin merely NAMED like the native coin and a
 				// multi-hop path ending in that name (neither is the native coin coming home)
@@ -400,10 +460,10 @@ func (e *env) gen(avoidKnown bool) []opT {
 				o.Amt = 0
 			}
 			if strings.HasPrefix(o.Memo, "call") && r.Chance(60) { // a derived sender that has an account
-				if r.Chance(50) {
-					o.Src, o.Sender = 7, 0
-				} else {
-					o.Src, o.Sender = 8, 1
+				if ch == 0 {
+					o.Sender = 0
+				} else if ch == 1 {
+					o.Sender = 1
 				}
 			}
 			ops = append(ops, o)
@@ -458,7 +518,7 @@ func (e *env) gen(avoidKnown bool) []opT {
 				ops = append(ops, opT{Kind: "timeoutraw", Chan: f.ch, Seq: f.seq})
 			}
 		default:
-			ops = append(ops, opT{Kind: "toggle", Denom: []string{"alias0", "alias1", "own10", "own11", "erc20", "erc20"}[r.Intn(6)]})
+			ops = append(ops, opT{Kind: "toggle", Denom: []string{"alias0", "alias1", "alias2", "own10", "own11", "erc20", "erc20"}[r.Intn(7)]})
 		}
 	}
 	return ops
@@ -473,6 +533,8 @@ func (e *env) tokenOf(d string) (tok.Token, int64, bool) {
 		return e.alias[0], 0, true
 	case "alias1":
 		return e.alias[1], 1, true
+	case "alias2":
+		return e.alias[2], 2, true
 	case "own10":
 		return e.own[0], 10, true
 	case "own11":
@@ -481,6 +543,8 @@ func (e *env) tokenOf(d string) (tok.Token, int64, bool) {
 		return e.alias[0], 0, true
 	case "base1":
 		return e.alias[1], 1, true
+	case "base2":
+		return e.alias[2], 2, true
 	}
 	return tok.Token{}, -1, false
 }
@@ -493,6 +557,8 @@ func coqDenom(d string) string {
 		return "(DAlias 0)"
 	case "alias1":
 		return "(DAlias 1)"
+	case "alias2":
+		return "(DAlias 2)"
 	case "own10":
 		return "(DOwn 10)"
 	case "own11":
@@ -501,6 +567,8 @@ func coqDenom(d string) string {
 		return "(DBase 0)"
 	case "base1":
 		return "(DBase 1)"
+	case "base2":
+		return "(DBase 2)"
 	}
 	return "DUnreg"
 }
@@ -509,25 +577,39 @@ type wkey struct{ h, k, t int64 }
 
 func (e *env) watch() []wkey {
 	var ks []wkey
-	toks := []int64{0, 1, 10, 11}
+	toks := []int64{0, 1, 2, 10, 11}
 	for u := int64(0); u < nUsers; u++ {
 		for _, t := range toks {
 			ks = append(ks, wkey{u, 0, t}, wkey{u, 2, t})
 		}
-		ks = append(ks, wkey{u, 1, 0}, wkey{u, 1, 1}, wkey{u, 3, 0})
+		ks = append(ks, wkey{u, 1, 0}, wkey{u, 1, 1}, wkey{u, 1, 2}, wkey{u, 3, 0})
 	}
 	for _, t := range toks {
 		ks = append(ks, wkey{-4, 0, t}, wkey{-2, 0, t}, wkey{-3, 0, t}, wkey{-3, 2, t})
 	}
-	for _, t := range []int64{0, 1} {
+	for _, t := range []int64{0, 1, 2} {
 		ks = append(ks, wkey{-4, 1, t}, wkey{-3, 1, t})
 	}
-	ks = append(ks, wkey{-10, 3, 0}, wkey{-11, 3, 0})
+	ks = append(ks, wkey{-10, 3, 0}, wkey{-11, 3, 0}, wkey{-12, 3, 0})
 	ks = append(ks, wkey{1700, 3, 0}, wkey{1801, 3, 0}, wkey{60, 3, 0}) // FX of the two derived senders with accounts and of the memo callee
-	for _, t := range []int64{0, 1} { // base coins of the bridged tokens in the channel escrows
-		ks = append(ks, wkey{-10, 0, t}, wkey{-11, 0, t})
+	for _, t := range []int64{0, 1, 2} { // base coins of the bridged tokens in the channel escrows
+		ks = append(ks, wkey{-10, 0, t}, wkey{-11, 0, t}, wkey{-12, 0, t})
 	}
 	return ks
+}
+
+// voucherMeta: do the voucher denoms of the alias tokens have bank metadata of their own? (all or none: the model keeps one flag)
+func (e *env) voucherMeta(ctx sdk.Context) bool {
+	n := 0
+	for _, v := range e.vAlias {
+		if e.c.App.BankKeeper.HasDenomMetaData(ctx, v) {
+			n++
+		}
+	}
+	if n != 0 && n != len(e.vAlias) {
+		e.rep.Fail(lib.Failure{Kind: "harness", What: fmt.Sprintf("%d of %d alias vouchers have bank metadata: the model keeps one flag for all", n, len(e.vAlias))})
+	}
+	return n > 0
 }
 
 func (e *env) tokByID(t int64) tok.Token {
@@ -642,7 +724,7 @@ func approveData(spender common.Address, amt *big.Int) []byte {
 
 func (e *env) erc20All(ctx sdk.Context, who common.Address) map[int64]*big.Int {
 	m := map[int64]*big.Int{}
-	for _, t := range []int64{0, 1, 10, 11} {
+	for _, t := range []int64{0, 1, 2, 10, 11} {
 		m[t] = tok.BalanceOf(e.c, ctx, e.tokByID(t).Erc20, who)
 	}
 	return m
@@ -664,8 +746,30 @@ func (e *env) fail(sig, what string, ops []opT, i int, extra interface{}) {
 func (e *env) history(ops []opT) string {
 	c := e.c
 	B, _ := c.Ctx.CacheContext()
+	lifecycle := false
+	for _, o := range ops {
+		if o.Kind == "exportimport" {
+			// lifecycle history: runs on the chain itself (committed blocks), the state is exported and a NEW app is started
+			// from the exported genesis (real ExportAppStateAndValidators -> InitChain). Such histories run last.
+			B = c.Ctx
+			lifecycle = true
+		}
+	}
 	stack := tok.TransferStack(c)
 	init := e.snapshot(B)
+	var pairs []int64
+	for _, t := range []int64{0, 1, 2, 10, 11} {
+		if p, ok := c.App.Erc20Keeper.GetTokenPair(B, e.tokByID(t).Base); ok && p.Enabled {
+			pairs = append(pairs, t)
+		}
+	}
+	if c.App.Erc20Keeper.GetEnableErc20(B) {
+		pairs = append(pairs, -1) // the module-wide switch (model: pseudo pair Erc20Switch)
+	}
+	if e.voucherMeta(B) {
+		pairs = append(pairs, -2) // the alias vouchers have bank metadata of their own (model: pseudo pair VoucherMeta)
+	}
+	sort.Slice(pairs, func(i, j int) bool { return pairs[i] < pairs[j] })
 	var seqs []string
 	for i, ch := range e.chans {
 		q, _ := c.App.IBCKeeper.ChannelKeeper.GetNextSequenceSend(B, port, ch)
@@ -732,10 +836,11 @@ func (e *env) history(ops []opT) string {
 					ai := int(o.Denom[len(o.Denom)-1] - '0')
 					pathDenom = fmt.Sprintf("%s/%s/ua%d", port, e.chans[ai], ai)
 				default:
-					pathDenom = fmt.Sprintf("%s/%s/uo%d", port, ch, o.Chan)
+					pathDenom = fmt.Sprintf("%s/%s/uo%d", port, ch, o.Chan%2)
 				}
 				data := transfertypes.NewFungibleTokenPacketData(pathDenom, fmt.Sprint(o.Amt), user.Acc().String(), e.pxAddr, "")
-				pkt := channeltypes.NewPacket(data.GetBytes(), seq, port, ch, port, ch, clienttypes.ZeroHeight(), timeout)
+				// the packet as the core built it: source = the local channel, destination = the channel id of the REMOTE end
+				pkt := channeltypes.NewPacket(data.GetBytes(), seq, port, ch, port, fmt.Sprintf("channel-%d", e.remote[o.Chan]), clienttypes.ZeroHeight(), timeout)
 				got := c.App.IBCKeeper.ChannelKeeper.GetPacketCommitment(B, port, ch, seq)
 				if !bytes.Equal(got, channeltypes.CommitPacket(c.App.AppCodec(), pkt)) {
 					e.rep.Fail(lib.Failure{Kind: "harness", What: fmt.Sprintf("cannot reconstruct the packet sent by op %d (%+v): commitment differs", i, o)})
@@ -755,6 +860,7 @@ func (e *env) history(ops []opT) string {
 		case "recv":
 			ch := e.chans[o.Chan]
 			user := e.users[o.User]
+			o.Src = e.remote[o.Chan] // an inbound packet's source channel is the remote end of the channel it arrives on
 			raw := o.RawDenom
 			if raw == "fxback" {
 				raw = fmt.Sprintf("%s/channel-%d/%s", port, o.Src, fxtypes.DefaultDenom)
@@ -906,6 +1012,10 @@ func (e *env) history(ops []opT) string {
 						return stack.OnTimeoutPacket(ctx, sp.pkt, e.relayer)
 					})
 					delivered = cbErr == nil
+					if cbErr != nil && lifecycle {
+						e.rep.Notes = append(e.rep.Notes, fmt.Sprintf("observation (lifecycle history, op %d %s %s/%d, EVM-started=%v, record lost in export=%v): the delivery is refused: %v",
+							i, o.Kind, ch, o.Seq, sp.evm, sp.lost, cbErr))
+					}
 				}
 				// ---- monitors: refund form and count, record removal
 				ercAfter := e.erc20All(B, user.Hex())
@@ -930,8 +1040,11 @@ func (e *env) history(ops []opT) string {
 					refundOp := !(isAck && o.OK)
 					if refundOp && sp.evm {
 						nontrivial = true
-						if ercDelta.Cmp(big.NewInt(sp.amt)) != 0 || !bankDelta.IsZero() {
-							e.fail("C19:refund:form", "an EVM-started transfer was not refunded exactly once in ERC-20 form", ops, i,
+						if sig := "C19:refund:form"; ercDelta.Cmp(big.NewInt(sp.amt)) != 0 || !bankDelta.IsZero() {
+							if sp.lost {
+								sig = "C19:export-import:refund-form"
+							}
+							e.fail(sig, "an EVM-started transfer was not refunded exactly once in ERC-20 form", ops, i,
 								fmt.Sprintf("erc20 delta %s bank delta %s", ercDelta, bankDelta))
 						}
 					}
@@ -957,6 +1070,47 @@ func (e *env) history(ops []opT) string {
 				coq = fmt.Sprintf("TimeoutRaw %d %d", o.Chan, o.Seq)
 			}
 
+		case "exportimport":
+			_, before := e.relations(B, sent)
+			{ // lib's ExportImport adds the localhost client type to the exported IBC genesis itself; listed twice the genesis is invalid
+				params := c.App.IBCKeeper.ClientKeeper.GetParams(B)
+				var keep []string
+				for _, ct := range params.AllowedClients {
+					if ct != ibcexported.Localhost {
+						keep = append(keep, ct)
+					}
+				}
+				params.AllowedClients = keep
+				c.App.IBCKeeper.ClientKeeper.SetParams(B, params)
+			}
+			nc, err := c.ExportImport()
+			if err != nil {
+				e.rep.Fail(lib.Failure{Kind: "harness", What: fmt.Sprintf("export / import at op %d failed: %v", i, err)})
+				return ""
+			}
+			metaBefore := e.voucherMeta(B)
+			e.c, c = nc, nc
+			B = nc.Ctx
+			stack = tok.TransferStack(nc)
+			e.rep.Notes = append(e.rep.Notes, fmt.Sprintf("observation: the voucher denoms of the alias tokens have bank metadata of their own: before the export %v, after the import %v "+
+				"(ibc-go transfer InitGenesis writes metadata for every stored denom trace; crosschain HasToken = HasDenomMetaData then takes the voucher for a base denom, "+
+				"IBCCoinToBaseCoin no longer swaps it for the base coin: refunds of alias-token transfers arrive as voucher coins, and a refund WITH a tracking record fails in ConvertCoin)",
+				metaBefore, e.voucherMeta(B)))
+			_, after := e.relations(B, sent)
+			// ---- monitor: a transfer in flight keeps its tracking record across a genesis export / import
+			for id := range before {
+				sp := sent[id]
+				inFlight := len(c.App.IBCKeeper.ChannelKeeper.GetPacketCommitment(B, port, e.chans[sp.ch], sp.seq)) > 0
+				if !after[id] {
+					sp.lost = true
+					if inFlight {
+						e.fail("C19:export-import:relation-lost", "the tracking record of an EVM-started transfer still in flight did not survive a genesis export / import (the packet commitment did)", ops, i,
+							fmt.Sprintf("%s/%d", e.chans[sp.ch], sp.seq))
+					}
+				}
+			}
+			coq = "ExportImport"
+
 		case "toggle":
 			if o.Denom == "erc20" { // governance: erc20 Params.EnableErc20, through the real authority-guarded handler
 				params := c.App.Erc20Keeper.GetParams(B)
@@ -981,16 +1135,6 @@ func (e *env) history(ops []opT) string {
 	bz, _ := json.Marshal(ops)
 	e.rep.Case(string(bz), nontrivial)
 	e.rep.Sample(ops)
-	var pairs []int64
-	for _, t := range []int64{0, 1, 10, 11} {
-		if p, ok := c.App.Erc20Keeper.GetTokenPair(c.Ctx, e.tokByID(t).Base); ok && p.Enabled {
-			pairs = append(pairs, t)
-		}
-	}
-	if c.App.Erc20Keeper.GetEnableErc20(c.Ctx) {
-		pairs = append(pairs, -1) // the module-wide switch (model: pseudo pair Erc20Switch)
-	}
-	sort.Slice(pairs, func(i, j int) bool { return pairs[i] < pairs[j] })
 	return fmt.Sprintf("mk_hist %s %s %s %s\n   %s", init, lib.ZList(pairs), lib.ZList(e.accts), lib.List(seqs), lib.List(items))
 }
 
@@ -1057,7 +1201,7 @@ func (e *env) observations() {
 		note("inbound 50 of a voucher registered only as an alias of a base token, hex receiver: ack success=%v, state changed=%v", ok, len(lib.DiffDumps(pre, c.DumpAll(B))) > 0)
 	}
 	// (3) IntermediateSender hashes the packet's SOURCE channel (the remote chain's id): two counterparties that both call their
-	// end channel-7 give the same derived sender for the same sender string. No local account is impersonated (C19's clause).
+	// end channel-7 (hypothetical here: the set-up's remote ends are channel-7/8/9) give the same derived sender for the same sender string. No local account is impersonated (C19's clause).
 	{
 		var seen []common.Address
 		for i := 0; i < 2; i++ {
